@@ -1,0 +1,101 @@
+//go:build verif
+
+package pogreb
+
+// Contracts for index.go / bucket.go (bucket I/O, chain walking) and compaction.go (GoVC, see /verif/DESIGN.md).
+// Comment-only file.
+
+// ---- IDX-WF: the two index files hold whole buckets whose overflow pointers stay inside the overflow file ----
+
+// a bucket offset: 512-aligned, behind the header, the whole bucket inside a file of length n
+//@ spec func bucketAt(o int64, n int64) bool = o >= 512 && o & 511 == 0 && o <= 0x1000000000000 && o + 512 <= n
+// an overflow pointer: 0 (end of chain) or a bucket offset of the overflow file
+//@ spec func nextOK(x int64, ovfSize int64) bool = x == 0 || bucketAt(x, ovfSize)
+// q is the position of the overflow pointer of a bucket of a file of length n (quantifiers range over this absolute
+// position rather than over the bucket offset, so that the byte reads in le64 have the bound variable as index)
+//@ spec func nextPos(q int64, n int64) bool = bucketAt(q - 496, n)
+// every bucket of a file of length n (contents m) has a well-formed overflow pointer
+//@ spec func chainsOK(m mem, n int64, ovfSize int64) bool = forall q int64 :: nextPos(q, n) ==> nextOK(int64(le64(m, int(q))), ovfSize)
+
+//@ spec func idxFiles(idx *index) bool = idx != nil && allocated(idx.main) && allocated(idx.overflow) && idx.main != idx.overflow && fileInv(idx.main) && fileInv(idx.overflow) && idx.main.File != idx.overflow.File && fidOf[idx.main.File] != fidOf[idx.overflow.File] && idx.main.size >= 1024 && idx.main.size <= 0x20000000200 && idx.overflow.size >= 512 && idx.overflow.size <= 0x1000000000000
+// linear hashing state: numBuckets == 2^level + splitBucketIdx, the main file holds exactly numBuckets buckets
+//@ spec func idxLH(idx *index) bool = idx.level < 32 && idx.splitBucketIdx < uint32(1) << idx.level && uint64(idx.numBuckets) == (uint64(1) << idx.level) + uint64(idx.splitBucketIdx) && idx.main.size == 512 + 512*int64(idx.numBuckets)
+//@ spec func idxWF(idx *index) bool = idxFiles(idx) && idxLH(idx) && chainsOK(fData[fidOf[idx.main.File]], idx.main.size, idx.overflow.size) && chainsOK(fData[fidOf[idx.overflow.File]], idx.overflow.size, idx.overflow.size)
+
+//@ func (idx *index) bucketIndex(hash uint32) uint32 [C01,C11,C18]
+//@   pure
+//@   requires lh: idx.level < 32 && idx.splitBucketIdx < uint32(1) << idx.level && uint64(idx.numBuckets) == (uint64(1) << idx.level) + uint64(idx.splitBucketIdx)
+//@   ensures [C01] inrange: r < idx.numBuckets
+//@   ensures [C18] addr: r == ite(hash & ((uint32(1) << idx.level) - 1) < idx.splitBucketIdx, hash & ((uint32(1) << (idx.level+1)) - 1), hash & ((uint32(1) << idx.level) - 1))
+
+//@ func (idx *index) newBucketIterator(startBucketIdx uint32) (it *bucketIterator) [C01,C11]
+//@   ensures it != nil && fresh(it) && it.off == 512 + 512*int64(startBucketIdx) && it.f == idx.main && it.overflow == idx.overflow
+
+//@ func (b *bucketHandle) read() (err error) [C01,C02,C11,C18]
+//@   requires handle: b.file != nil && fileInv(b.file) && b.offset >= 0 && b.offset <= 0x1000000000000
+//@   ensures inside: err == nil ==> b.offset + 512 <= fLen[fidOf[b.file.File]]
+//@   ensures slots: err == nil ==> forall p int :: 0 <= p && p < 31 ==> slotEncoded(fData[fidOf[b.file.File]], int(b.offset)+16*p, b.slots[p])
+//@   ensures next: err == nil ==> uint64(b.next) == le64(fData[fidOf[b.file.File]], int(b.offset)+496)
+//@   ensures err: err != nil ==> isIOErr(err) || err == io.EOF
+//@   modifies b.bucket
+
+//@ func (b *bucketHandle) write() (err error) [C01,C02,C18]
+//@   requires handle: b.file != nil && fileInv(b.file) && b.offset >= 0 && b.offset <= 0x1000000000000 && b.offset + 512 <= b.file.size && b.offset & 511 == 0
+//@   ensures inv: err == nil ==> fileInv(b.file) && b.file.size == old(b.file.size) && fLen[fidOf[b.file.File]] == old(fLen[fidOf[b.file.File]])
+//@   ensures slots: err == nil ==> forall p int :: 0 <= p && p < 31 ==> slotEncoded(fData[fidOf[b.file.File]], int(b.offset)+16*p, b.slots[p])
+//@   ensures next: err == nil ==> le64(fData[fidOf[b.file.File]], int(b.offset)+496) == uint64(b.next)
+//@   ensures nexts: err == nil ==> forall q int64 :: nextPos(q, b.file.size) ==> le64(fData[fidOf[b.file.File]], int(q)) == ite(q == b.offset + 496, uint64(b.next), le64(old(fData[fidOf[b.file.File]]), int(q)))
+//@   ensures others: err == nil ==> forall q int :: 0 <= q && q < int(b.file.size) && (q < int(b.offset) || q >= int(b.offset)+512) ==> fData[fidOf[b.file.File]][q] == old(fData[fidOf[b.file.File]])[q]
+//@   ensures err: err != nil ==> isIOErr(err)
+//@   modifies fData[fidOf[b.file.File]], fLen[fidOf[b.file.File]], fDur[fidOf[b.file.File]]
+
+//@ func (it *bucketIterator) next() (b bucketHandle, err error) [C01,C11]
+//@   requires iter: it.off == 0 || (it.f != nil && fileInv(it.f) && it.off >= 0 && it.off <= 0x1000000000000)
+//@   ensures done: old(it.off) == 0 ==> err == ErrIterationDone
+//@   ensures notdone: old(it.off) != 0 ==> err != ErrIterationDone
+//@   ensures failed: err != nil ==> it.off == old(it.off) && it.f == old(it.f)
+//@   ensures bucket: err == nil ==> b.file == old(it.f) && b.offset == old(it.off) && b.offset + 512 <= fLen[fidOf[b.file.File]]
+//@   ensures slots: err == nil ==> forall p int :: 0 <= p && p < 31 ==> slotEncoded(fData[fidOf[b.file.File]], int(b.offset)+16*p, b.slots[p])
+//@   ensures next: err == nil ==> uint64(b.next) == le64(fData[fidOf[b.file.File]], int(b.offset)+496)
+//@   ensures advance: err == nil ==> it.off == b.next && it.f == it.overflow
+//@   ensures err: err != nil ==> isIOErr(err) || err == io.EOF || err == ErrIterationDone
+//@   modifies it.off, it.f
+
+// ---- compaction.go: promoteRecord ------------------------------------------------------------------------
+
+// the index files are not segment files
+//@ spec func idxLogDisjoint(db *DB) bool = forall i int :: 0 <= i && i < 32767 && db.datalog.segments[i] != nil ==> db.datalog.segments[i].file != db.index.main && db.datalog.segments[i].file != db.index.overflow && db.datalog.segments[i].file.File != db.index.main.File && db.datalog.segments[i].file.File != db.index.overflow.File && fidOf[db.datalog.segments[i].file.File] != fidOf[db.index.main.File] && fidOf[db.datalog.segments[i].file.File] != fidOf[db.index.overflow.File]
+//@ spec func dbFull(db *DB) bool = dbInv(db) && idxWF(db.index) && idxLogDisjoint(db)
+
+// the slot designates the record being compacted
+//@ spec func pointsTo(sl slot, h uint32, rec record) bool = sl.hash == h && sl.offset == rec.offset && sl.segmentID == rec.segmentID
+
+//@ func (db *DB) promoteRecord(rec record) (reclaimed bool, err error) [C01,C05,C06]
+//@   requires inv: dbFull(db)
+//@   requires rec: len(rec.data) <= 0x80010009
+//@   ensures inv-log: err == nil ==> dbInv(db)
+//@   ensures inv-idx: err == nil ==> idxFiles(db.index) && idxLH(db.index)
+//@   ensures [C01] nexts-main: err == nil ==> forall q int64 :: nextPos(q, db.index.main.size) ==> le64(fData[fidOf[db.index.main.File]], int(q)) == le64(old(fData[fidOf[db.index.main.File]]), int(q))
+//@   ensures [C01] nexts-overflow: err == nil ==> forall q int64 :: nextPos(q, db.index.overflow.size) ==> le64(fData[fidOf[db.index.overflow.File]], int(q)) == le64(old(fData[fidOf[db.index.overflow.File]]), int(q))
+//@   ensures inv-main-chains: err == nil ==> chainsOK(fData[fidOf[db.index.main.File]], db.index.main.size, db.index.overflow.size)
+//@   ensures inv-overflow-chains: err == nil ==> chainsOK(fData[fidOf[db.index.overflow.File]], db.index.overflow.size, db.index.overflow.size)
+//@   ensures inv-disjoint: err == nil ==> idxLogDisjoint(db)
+//@   ensures kept: forall i int :: 0 <= i && i < 32767 && old(db.datalog.segments[i]) != nil ==> db.datalog.segments[i] == old(db.datalog.segments[i])
+//@   ensures [C05] discard-changes-nothing: reclaimed ==> fData == old(fData) && fLen == old(fLen) && fDur == old(fDur)
+// a record is discarded only after the whole bucket chain of its hash was walked (the iterator is at the end of the chain)
+//@   at call write@1: cases which-file: b.file == db.index.main || b.file == db.index.overflow
+//@   at call write@1: hint next-still-on-disk: uint64(b.next) == le64(fData[fidOf[b.file.File]], int(b.offset)+496) && fData[fidOf[db.index.main.File]] == old(fData[fidOf[db.index.main.File]]) && fData[fidOf[db.index.overflow.File]] == old(fData[fidOf[db.index.overflow.File]])
+//@   at return: hint main-other-nexts: err == nil && !reclaimed ==> forall q int64 :: nextPos(q, db.index.main.size) && !(b.file == db.index.main && q == b.offset + 496) ==> le64(fData[fidOf[db.index.main.File]], int(q)) == le64(old(fData[fidOf[db.index.main.File]]), int(q))
+//@   at return: hint main-own-next: err == nil && !reclaimed && b.file == db.index.main ==> le64(fData[fidOf[db.index.main.File]], int(b.offset)+496) == le64(old(fData[fidOf[db.index.main.File]]), int(b.offset)+496)
+//@   at return: hint overflow-other-nexts: err == nil && !reclaimed ==> forall q int64 :: nextPos(q, db.index.overflow.size) && !(b.file == db.index.overflow && q == b.offset + 496) ==> le64(fData[fidOf[db.index.overflow.File]], int(q)) == le64(old(fData[fidOf[db.index.overflow.File]]), int(q))
+//@   at return: hint overflow-own-next: err == nil && !reclaimed && b.file == db.index.overflow ==> le64(fData[fidOf[db.index.overflow.File]], int(b.offset)+496) == le64(old(fData[fidOf[db.index.overflow.File]]), int(b.offset)+496)
+//@   at return: assert [C01,C05] discard-only-at-chain-end: reclaimed && err == nil ==> it.off == 0
+//@   flag cumulative
+//@   modifies any(datalog).curSeg, any(datalog).segments, any(datalog).maxSequenceID, any(segmentMeta).Full, any(segmentMeta).PutRecords, any(segmentMeta).DeleteRecords, any(file).size, dirFid[db.opts.FileSystem], fLen, fDur, fData, hOpen, hPos, fidOf, fidName
+//@   loop 1:
+//@     invariant it != nil && fresh(it) && it.overflow == db.index.overflow
+//@     invariant it.off == 0 || (it.f == db.index.main && bucketAt(it.off, db.index.main.size)) || (it.f == db.index.overflow && bucketAt(it.off, db.index.overflow.size))
+//@     modifies it.off, it.f
+//@   loop 2:
+//@     invariant 0 <= i && i <= 31
+//@     modifies nothing
